@@ -226,9 +226,11 @@ func c18GenStep(g *Rng, k c18Knobs, i int, tier string) c18Step {
 	}
 	if g.Bool(0.08) {
 		// benign: the certificate is dropped from KeyInfo in flight (KeyInfo is not signed content)
-		op := Pick(g, "keyinfo-none", "keyinfo-keyvalue", "keyinfo-add-cert")
+		op := Pick(g, "keyinfo-none", "keyinfo-keyvalue", "keyinfo-add-cert", "keyinfo-x509ref", "keyinfo-x509ref")
 		if op == "keyinfo-add-cert" {
 			st.Wire = append(st.Wire, c18Op{Op: op, Arg: "4", Val: Pick(g, "after", "before")})
+		} else if op == "keyinfo-x509ref" {
+			st.Wire = append(st.Wire, c18Op{Op: op, Val: Pick(g, "issuer-serial", "subject", "ski")})
 		} else {
 			st.Wire = append(st.Wire, c18Op{Op: op})
 		}
@@ -299,7 +301,7 @@ func c18Defect(g *Rng, k c18Knobs, st *c18Step, s *c18Spec, dim string) {
 			}
 		case 5:
 			s.SignKey = 2
-			st.Wire = append(st.Wire, c18Op{Op: Pick(g, "keyinfo-none", "keyinfo-keyvalue")})
+			st.Wire = append(st.Wire, c18Op{Op: Pick(g, "keyinfo-none", "keyinfo-keyvalue", "keyinfo-x509ref")})
 			st.Intent = append(st.Intent, "signature:untrusted-key-no-cert")
 		case 6:
 			st.Wire = append(st.Wire, c18Op{Op: "strip-sig"})
@@ -349,10 +351,21 @@ func c18Defect(g *Rng, k c18Knobs, st *c18Step, s *c18Spec, dim string) {
 			st.Intent = append(st.Intent, "signature:detached-only")
 		}
 	case "destination":
-		how := g.Intn(10)
+		how := g.Intn(12)
 		var v *string
 		lab := ""
 		switch how {
+		case 10, 11:
+			// same scheme, host and path, another port (another service on that machine)
+			u := mustURL(slo)
+			if u.Port() == "" {
+				u.Host = u.Hostname() + Pick(g, ":8443", ":9031", ":8080")
+			} else if how == 10 {
+				u.Host = u.Hostname()
+			} else {
+				u.Host = u.Hostname() + ":1" + u.Port()
+			}
+			v, lab = sp(u.String()), "other-port"
 		case 0:
 			v, lab = nil, "absent"
 		case 1:
@@ -652,7 +665,7 @@ func c18Run(k c18Knobs, st *c18Step) *c18Model {
 			if m.sigDirect == 1 && m.signer >= 0 && !m.corruptDV {
 				m.corruptDV, eff = true, true
 			}
-		case "keyinfo-none", "keyinfo-keyvalue":
+		case "keyinfo-none", "keyinfo-keyvalue", "keyinfo-x509ref":
 			if m.sigDirect == 1 && m.signer >= 0 && m.keyInfo != strings.TrimPrefix(op.Op, "keyinfo-") {
 				m.keyInfo, eff = strings.TrimPrefix(op.Op, "keyinfo-"), true
 			}
@@ -974,6 +987,22 @@ func c18Build(k c18Knobs, st *c18Step, m *c18Model, t0 time.Time) []byte {
 				rk := ki.CreateElement(ki.Space + ":KeyValue").CreateElement(ki.Space + ":RSAKeyValue")
 				rk.CreateElement(ki.Space + ":Modulus").SetText("AQAB")
 				rk.CreateElement(ki.Space + ":Exponent").SetText("AQAB")
+			}
+		case "keyinfo-x509ref":
+			// the certificate is identified by reference inside X509Data (XML-DSig 4.4.4), not embedded
+			if c := sig.FindElement("./KeyInfo/X509Data/X509Certificate"); c != nil {
+				xd := c.Parent()
+				xd.RemoveChild(c)
+				switch op.Val {
+				case "ski":
+					xd.CreateElement(xd.Space + ":X509SKI").SetText("MTIzNDU2Nzg5MDEyMzQ1Njc4OTA=")
+				case "subject":
+					xd.CreateElement(xd.Space + ":X509SubjectName").SetText("CN=idp.example.com")
+				default:
+					is := xd.CreateElement(xd.Space + ":X509IssuerSerial")
+					is.CreateElement(xd.Space + ":X509IssuerName").SetText("CN=idp.example.com")
+					is.CreateElement(xd.Space + ":X509SerialNumber").SetText("1")
+				}
 			}
 		case "keyinfo-add-cert":
 			j := 0
